@@ -12,7 +12,9 @@
 use std::collections::HashMap;
 use std::io::{BufRead, BufReader, BufWriter, Write};
 use std::path::PathBuf;
-use std::process::{Child, ChildStdin, ChildStdout, Command, Stdio};
+use std::process::{Child, ChildStdin, Command, Stdio};
+use std::sync::mpsc::{self, RecvTimeoutError};
+use std::time::Duration;
 
 use hcore::ast::{self, IKind, LineKind};
 use hcore::sexp;
@@ -21,7 +23,17 @@ use hcore::worker::{worker_name, ARRAY_MAX, THREADS_WORKER};
 struct Worker {
     child: Child,
     to: BufWriter<ChildStdin>,
-    from: BufReader<ChildStdout>,
+    /// result lines, forwarded by a reader thread so that a request can time out
+    from: mpsc::Receiver<String>,
+}
+
+/// What a request to a worker came back with.
+enum Answer {
+    Line(String),
+    /// no answer within the per-case limit (`HARNESS_CASE_TIMEOUT_S`, default 20 s): the worker was killed
+    TimedOut,
+    /// the worker died inside the case (abort, stack overflow, kill)
+    Died,
 }
 
 struct Pool {
@@ -43,7 +55,20 @@ impl Pool {
             let w = match spawned {
                 Ok(mut child) => {
                     let to = BufWriter::new(child.stdin.take().expect("piped stdin"));
-                    let from = BufReader::new(child.stdout.take().expect("piped stdout"));
+                    let mut out = BufReader::new(child.stdout.take().expect("piped stdout"));
+                    let (tx, from) = mpsc::channel();
+                    std::thread::spawn(move || loop {
+                        let mut line = String::new();
+                        match out.read_line(&mut line) {
+                            Ok(n) if n > 0 && line.ends_with('\n') => {
+                                line.pop();
+                                if tx.send(line).is_err() {
+                                    break;
+                                }
+                            }
+                            _ => break,
+                        }
+                    });
                     Some(Worker { child, to, from })
                 }
                 Err(e) => {
@@ -89,6 +114,14 @@ fn main() {
         .and_then(|p| p.parent().map(|d| d.to_path_buf()))
         .unwrap_or_else(|| PathBuf::from("."));
     let mut pool = Pool { dir, workers: HashMap::new() };
+    let limit = Duration::from_secs(
+        std::env::var("HARNESS_CASE_TIMEOUT_S").ok().and_then(|v| v.parse().ok()).unwrap_or(20),
+    );
+
+    // after this many cases that hung or killed their worker, the rest of the file is answered SKIPPED (the driver
+    // treats that like UNSUPPORTED): a change that makes parsing loop would otherwise cost the limit for every case
+    let max_bad: usize = std::env::var("HARNESS_MAX_TIMEOUTS").ok().and_then(|v| v.parse().ok()).unwrap_or(3);
+    let mut bad = 0usize;
 
     let stdout = std::io::stdout();
     let mut out = stdout.lock();
@@ -109,23 +142,43 @@ fn main() {
                 let _ = writeln!(out, "{id} {result}");
                 let _ = out.flush();
             }
+            Route::Worker(id, _) if bad >= max_bad => {
+                let _ = writeln!(out, "{id} SKIPPED");
+                let _ = out.flush();
+            }
             Route::Worker(id, name) => match pool.get(&name) {
                 None => {
                     let _ = writeln!(out, "{id} UNSUPPORTED");
                     let _ = out.flush();
                 }
-                Some(w) => match ask(w, &line) {
-                    Some(answer) => {
+                Some(w) => match ask(w, &line, limit) {
+                    Answer::Line(answer) => {
                         let _ = writeln!(out, "{answer}");
                         let _ = out.flush();
                     }
-                    None => {
-                        // The worker died inside this case (abort, stack overflow, kill). A single-process
-                        // harness would be dead at this point, with no result line for the case: do the same,
-                        // the driver re-runs the remaining cases.
+                    Answer::TimedOut => {
+                        // The case did not come back in time (an unbounded loop): kill the worker, report the case and go
+                        // on with a fresh worker.
+                        eprintln!("harness: worker {name} timed out in case {id}");
+                        if let Some(Some(mut w)) = pool.workers.remove(&name) {
+                            let _ = w.child.kill();
+                            let _ = w.child.wait();
+                        }
+                        bad += 1;
+                        let _ = writeln!(out, "{id} TIMEOUT");
+                        let _ = out.flush();
+                    }
+                    Answer::Died => {
+                        // The worker died inside this case (abort, stack overflow, kill): report it and go on with a
+                        // fresh worker.
                         eprintln!("harness: worker {name} died in case {id}");
-                        pool.shutdown();
-                        std::process::exit(3);
+                        if let Some(Some(mut w)) = pool.workers.remove(&name) {
+                            let _ = w.child.kill();
+                            let _ = w.child.wait();
+                        }
+                        bad += 1;
+                        let _ = writeln!(out, "{id} CRASH");
+                        let _ = out.flush();
                     }
                 },
             },
@@ -198,17 +251,15 @@ fn route(line: &str, why: bool) -> Route {
     Route::Worker(id, worker_name(ikind, ekind, n))
 }
 
-/// One request/response round trip. `None`: the worker is gone.
-fn ask(w: &mut Worker, line: &str) -> Option<String> {
-    w.to.write_all(line.as_bytes()).ok()?;
-    w.to.write_all(b"\n").ok()?;
-    w.to.flush().ok()?;
-    let mut answer = String::new();
-    match w.from.read_line(&mut answer) {
-        Ok(n) if n > 0 && answer.ends_with('\n') => {
-            answer.pop();
-            Some(answer)
-        }
-        _ => None,
+/// One request/response round trip.
+fn ask(w: &mut Worker, line: &str, limit: Duration) -> Answer {
+    let sent = w.to.write_all(line.as_bytes()).and_then(|_| w.to.write_all(b"\n")).and_then(|_| w.to.flush());
+    if sent.is_err() {
+        return Answer::Died;
+    }
+    match w.from.recv_timeout(limit) {
+        Ok(answer) => Answer::Line(answer),
+        Err(RecvTimeoutError::Timeout) => Answer::TimedOut,
+        Err(RecvTimeoutError::Disconnected) => Answer::Died,
     }
 }
